@@ -6,6 +6,7 @@
 import VueJsx.Base
 import VueJsx.Canon
 import VueJsx.Attrs
+import VueJsx.Sem
 
 namespace VueJsx
 open Text
@@ -74,7 +75,7 @@ def plainAttrNames (attrs : List Node) : List String :=
 def hasDupNonMergeable (names : List String) : Bool :=
   match names with
   | [] => false
-  | n :: rest => (rest.contains n && !isMergeKey n) || hasDupNonMergeable rest
+  | n :: rest => (rest.contains n && !isConcatKey n) || hasDupNonMergeable rest
 
 /-- some element of the tree repeats a non-mergeable attribute name -/
 def anyDroppedDuplicate (n : Node) : Bool :=
@@ -97,5 +98,152 @@ def oracleC02 (o : Opts) (inN outN : Node) : Verdict :=
   let actual := sortStrings (actualCalls ++ leftover)
   if expected == actual then .ok
   else .fail "text-cleaning" s!"expected {expected} got {actual}"
+
+end VueJsx
+
+/-! ### semantic oracles (C01–C05): `denote input` vs `evalOut (implementation output)` -/
+namespace VueJsx
+
+/-- nested vnodes replaced by a placeholder: each vnode is judged on its own -/
+def shallowRule (n : Node) : Node :=
+  match n with
+  | .mk (.other "vnode") _ _ => S "vnode" [] []
+  | n => n
+
+def shallow (n : Node) : Node :=
+  match n with
+  | .mk k as ks => .mk k as (postL shallowRule ks)
+
+structure VPair where
+  d : Node   -- denoted vnode
+  e : Node   -- evaluated vnode
+  deriving Inhabited
+
+/- simultaneous walk; pairs up vnodes sitting at the same position of two trees of the same shape;
+   also returns whether the shapes agreed everywhere outside vnodes -/
+mutual
+/-- outermost vnodes of a tree, in pre-order -/
+partial def outerVnodes (n : Node) : List Node :=
+  match n with
+  | .mk (.other "vnode") _ _ => [n]
+  | .mk _ _ ks => ks.flatMap outerVnodes
+end
+
+mutual
+partial def pairVnodes (d e : Node) : List VPair × Bool :=
+  match d, e with
+  | .mk (.other "vnode") _ dk, .mk (.other "vnode") _ ek =>
+    -- inside a vnode, component mismatches are judged per component
+    let (ps, _) := pairLists dk ek
+    ({ d := d, e := e } :: ps, true)
+  | .mk k1 a1 c1, .mk k2 a2 c2 =>
+    if k1 != k2 || a1 != a2 || c1.length != c2.length then (pairByOrder d e, false)
+    else pairLists c1 c2
+partial def pairLists (xs ys : List Node) : List VPair × Bool :=
+  match xs, ys with
+  | x :: xs, y :: ys =>
+    let (p1, b1) := pairVnodes x y
+    let (p2, b2) := pairLists xs ys
+    (p1 ++ p2, b1 && b2)
+  | _, _ => ([], true)
+/-- shapes differ (e.g. children delivered as a slots thunk instead of an array): pair the outermost vnodes by order -/
+partial def pairByOrder (d e : Node) : List VPair :=
+  let dv := outerVnodes d
+  let ev := outerVnodes e
+  if dv.length != ev.length then []
+  else (dv.zip ev).flatMap fun p => (pairVnodes p.1 p.2).1
+end
+
+def vTag (v : Node) : Node := (v.kids[0]?).getD nNone
+def vProps (v : Node) : Node := (v.kids[1]?).getD nNone
+def vKids (v : Node) : Node := (v.kids[2]?).getD nNone
+def vDirs (v : Node) : Node := (v.kids[3]?).getD nNone
+def vHints (v : Node) : Node := (v.kids[4]?).getD nNone
+def vIsComponent (v : Node) : Bool := v.atoms.head? == some "component"
+
+def countVnodes (n : Node) : Nat := (collect (fun x => x.kind == .other "vnode") n).length
+
+def hasOod (n : Node) : Bool := !(collect (fun x => x.kind == .other "ood") n).isEmpty
+
+/-- does the input contain an element/fragment directly as an attribute value (`a=<b/>`)?  (C07's territory) -/
+def hasJsxAttrValue (inN : Node) : Bool :=
+  (collect (isKind .jsxAttr) inN).any fun a =>
+    match a with
+    | .mk .jsxAttr _ [_, .mk .jsxElement _ _] => true
+    | .mk .jsxAttr _ [_, .mk .jsxFragment _ _] => true
+    | _ => false
+
+structure SemView where
+  pairs : List VPair
+  shapeOk : Bool
+  dCount : Nat
+  /-- some denoted element drops a repeated attribute (whose value, possibly JSX, is then never lowered) -/
+  anyDropped : Bool
+  deriving Inhabited
+
+def semView (o : Opts) (env : Env) (pragma : Option String) (inN outN : Node) : SemView :=
+  let d := denote o env inN
+  let e := evalOut pragma outN
+  let (ps, ok) := pairVnodes d e
+  { pairs := ps, shapeOk := ok, dCount := countVnodes d,
+    anyDropped := (collect (fun x => x.kind == .other "vnode" && x.atoms.contains "dropped-duplicate") d).length != 0 }
+
+def showN (n : Node) : String :=
+  let s := printNode n
+  if s.length > 400 then (s.take 400).toString ++ "…" else s
+
+/-- generic judge: every paired vnode must agree on the selected component -/
+def judge (sv : SemView) (sel : Node → Node) (filter : VPair → Bool) (classify : VPair → String) : Verdict :=
+  match (sv.pairs.filter filter).find? (fun p => !(shallow (sel p.d) == shallow (sel p.e))) with
+  | some p => .fail (classify p) s!"denoted {showN (shallow (sel p.d))} evaluated {showN (shallow (sel p.e))}"
+  | none =>
+    if sv.pairs.length != sv.dCount && !sv.anyDropped then
+      .fail "unpaired-vnode" s!"{sv.dCount - sv.pairs.length} of {sv.dCount} JSX elements have no vnode at their position"
+    else .ok
+
+end VueJsx
+
+namespace VueJsx
+
+def effectivePragma (o : Opts) (env : Env) : Option String :=
+  let fromComments := env.comments.foldl (fun (acc : Option String) cs =>
+    match cs.findSome? (fun c => (Text.pragmaOfComment c.toList).map String.ofList) with
+    | some p => some p
+    | none => acc) none
+  match fromComments with
+  | some p => some p
+  | none => o.pragma
+
+def hasModelAttr (v : Node) : Bool := v.atoms.contains "model"
+
+/-- input features of the denoted element that name a recorded region (see known_findings.txt) -/
+def featKey (base : String) (p : VPair) (feats : List String) : String :=
+  match feats.find? (fun f => p.d.atoms.contains f) with
+  | some f => base ++ "/" ++ f
+  | none => base
+
+def inDom (p : VPair) : Bool := !p.d.atoms.contains "dropped-duplicate" && !p.d.atoms.contains "ood-directive-value"
+
+/-- the semantic oracles of C01–C05, on the implementation's output -/
+def oracleSem (prop : String) (o : Opts) (env : Env) (inN outN : Node) : Verdict :=
+  if o.resolveType then .skip "resolveType" else
+  if hasJsxAttrValue inN then .skip "jsx-element-as-attribute-value" else
+  let sv := semView o env (effectivePragma o env) inN outN
+  if prop == "C01" then
+    -- elements carrying v-model are judged by C05
+    judge sv (fun v => S "tp" [] [vTag v, vProps v]) (fun p => inDom p && !p.d.atoms.contains "has-vmodel")
+      (fun p => if !(shallow (vTag p.d) == shallow (vTag p.e)) then "tag" else "props")
+  else if prop == "C02" then
+    judge sv vKids (fun p => !vIsComponent p.d && !hasOod (vKids p.d)) (fun _ => "children")
+  else if prop == "C03" then
+    judge sv vKids (fun p => vIsComponent p.d)
+      (fun p => if !(collect (fun x => x.kind == .other "captured") (vKids p.e)).isEmpty
+                then "slots/captured-temporary" else "slots")
+  else if prop == "C04" then
+    judge sv vDirs inDom (fun _ => "directives")
+  else if prop == "C05" then
+    judge sv (fun v => S "pd" [] [vProps v, vDirs v]) (fun p => inDom p && p.d.atoms.contains "has-vmodel")
+      (fun p => featKey "v-model" p ["vmodel-computed-arg", "vmodel-arg-on-element"])
+  else .skip "no-oracle"
 
 end VueJsx
